@@ -42,6 +42,8 @@ type Instance struct {
 
 	// StrongGate, when set, is called at the start of AddReference(nil, false): a scheduler gate inside the call
 	StrongGate func()
+	// Vals are values the directive already carries: AddReference replays them to a new handler
+	Vals []directive.AttachedValue
 }
 
 // NewInstance constructs a fake instance for a directive.
@@ -65,7 +67,14 @@ func (i *Instance) AddReference(cb directive.ReferenceHandler, weak bool) direct
 	r := &Ref{inst: i, Handler: cb, Weak: weak}
 	i.mu.Lock()
 	i.Refs = append(i.Refs, r)
+	vals := append([]directive.AttachedValue{}, i.Vals...)
 	i.mu.Unlock()
+	// like the real bus: the values the directive already has are replayed to the new handler before AddReference returns
+	if cb != nil {
+		for _, v := range vals {
+			cb.HandleValueAdded(i, v)
+		}
+	}
 	return r
 }
 
